@@ -105,7 +105,8 @@ def run_job(job):
     mon = PhaseMonitor('C07')
 
     def on_build_error(exc, ctx):
-        sig = exc_signature(exc)
+        from ..explore import error_shape
+        sig = exc_signature(exc) + (error_shape(ctx.cfg, []),)
         ctx.violation('constructor-raised', f'constructor raised {type(exc).__name__}: {exc} at {sig[1]}: {sig[2]}',
                       path=[], sig=('C07', 'raised') + sig)
 
